@@ -142,7 +142,10 @@ impl<M: MemBuilder> AnyVecRaw<M> {
         where M::Mem: MemResizable
     {
         let new_len = cmp::max(self.len, min_capacity);
-        self.mem.resize(new_len);
+        // Never grow: no-op, if capacity is already below the lower limit.
+        if new_len < self.capacity(){
+            self.mem.resize(new_len);
+        }
     }
 
     #[inline]
